@@ -43,7 +43,7 @@ def _rec():
 
 VALUES = [
     ('none', lambda: None), ('open', lambda: 'open'), ('keep', lambda: 'a\n\n'), ('emptystr', lambda: ''), ('elist', lambda: []),
-    ('emap', lambda: {}), ('shared', _shared), ('rec', _rec), ('nested', lambda: {'k': [1, {'j': 'v'}], 'l': 'open'}), ('longkey', lambda: {'k' * 130: 'v'}),
+    ('emap', lambda: {}), ('shared', _shared), ('rec', _rec), ('nested', lambda: {'k': [1, {'j': 'v'}], 'l': 'open'}), ('longkey', lambda: {'k' * 130: 'v'}), ('esckey', lambda: {'\U0001F600' * 103: 'v'}),
     ('quoted', lambda: 'a: b'), ('trail', lambda: 'x\n\n\n'), ('marker-start', lambda: '---'), ('marker-end', lambda: '...'), ('marker-text', lambda: '--- x'),
     ('marker-line', lambda: 'intro\n--- not a marker'), ('marker-line-end', lambda: 'intro\n... not a marker\n'), ('marker-folded', lambda: 'word ' * 18 + '... and --- more ' + 'word ' * 18),
 ]
